@@ -72,7 +72,9 @@ def _run(prop, tier):
         kind = ev.get("ev")
         if kind in ("client_recv",):
             mine = "C09" if valid else "C10"
-        elif kind in ("extract_ok", "client_noresp"):
+        elif kind == "client_noresp":
+            mine = "C09" if valid else "C10"   # a valid request went unanswered / an invalid one was not refused
+        elif kind == "extract_ok":
             mine = "C10"
         elif kind == "handler_echo":
             mine = "C09" if valid else "C10"
